@@ -428,9 +428,12 @@ class SelectWith(Statement):
         if isinstance(TypeQualifier.decay(arg.result), BitVector):
             root = TypeQualifier.decay(arg.result._root)
 
-            if isinstance(root, Unsigned):
+            # the vhdl type of (a slice of) an array element is the element type
+            root_type = root._elemtype_ if isinstance(root, Array) else type(root)
+
+            if issubclass(root_type, Unsigned):
                 arg = Value(arg.result.unsigned)
-            elif isinstance(root, Signed):
+            elif issubclass(root_type, Signed):
                 arg = Value(arg.result.signed)
             else:
                 arg = Value(arg.result.bitvector)
